@@ -618,6 +618,11 @@ func runC12(r *Run) {
 		var denotes []string
 		for i, k := range keys {
 			form := k.forms[rng.Intn(len(k.forms))]
+			if !inRecordType && rng.P(1, 4) {
+				// a marked key is still a key (seeded change C12B3 lost the resource-id-ness of a marked chunked key)
+				evs = append(evs, Event{K: "mk", D: []byte(fmt.Sprintf("k%d", i))})
+				r.out.Count("marked-key")
+			}
 			evs = append(evs, form...)
 			if !inRecordType {
 				evs = append(evs, Event{K: "n"})
@@ -806,7 +811,33 @@ func mutateMarkers(rng *Rng, evs []Event) ([]Event, string) {
 			refs = append(refs, i)
 		}
 	}
-	switch rng.Intn(8) {
+	switch rng.Intn(9) {
+	case 8:
+		// a marker on something that cannot be marked: a remote reference or a record type, in every
+		// delivery form (seeded change C13A3 dropped the check for the chunked form only)
+		if len(mks) > 0 {
+			i := mks[rng.Intn(len(mks))]
+			// find the end of the marked object: replace a marked scalar only
+			if i+1 < len(out) {
+				switch out[i+1].K {
+				case "n", "t", "f", "b", "pi", "ni", "i", "s", "a", "fl", "df", "uid", "tm":
+					url := []byte("https://x.y/z")
+					var repl []Event
+					switch rng.Intn(3) {
+					case 0:
+						repl = []Event{{K: "s", AT: events.ArrayTypeReferenceRemote, D: url}}
+					case 1:
+						repl = []Event{{K: "a", AT: events.ArrayTypeReferenceRemote, N: uint64(len(url)), D: url}}
+					default:
+						repl = []Event{{K: "ab", AT: events.ArrayTypeReferenceRemote}, {K: "ac", N: 5, B: true}, {K: "ad", D: url[:5]},
+							{K: "ac", N: uint64(len(url) - 5), B: false}, {K: "ad", D: url[5:]}}
+					}
+					ins := append([]Event{}, out[:i+1]...)
+					ins = append(ins, repl...)
+					return append(ins, out[i+2:]...), "marker-on-remote-ref"
+				}
+			}
+		}
 	case 0:
 		if len(refs) > 0 {
 			i := refs[rng.Intn(len(refs))]
